@@ -84,7 +84,7 @@ def _run(ctx):
         known_homes = {tc.path, prov.path, wd.path, acceptor.path, hb.path, fr_.add_decimals[3].path}
         if root_fn.path not in known_homes:
             # a message-building helper called from exactly one place: judge it in its caller's context
-            cf_, lv_ = common.lift_value(P, root_fn, dict(v[3])["contract_addr"])
+            cf_, lv_ = common.lift_value(P, root_fn, dict(v[3])["contract_addr"], stop=lambda g_: g_.path in known_homes)
             if cf_.path != root_fn.path:
                 root_fn = P.fn(cf_.parent) if cf_.kind == "closure" and cf_.parent else cf_
                 tgt = set(ctx.roots(lv_))
@@ -102,7 +102,10 @@ def _run(ctx):
         elif root_fn.path == hb.path and kind == "cw20::Cw20ExecuteMsg::Send":
             tpl = empty_funds
         elif root_fn.path == fr_.add_decimals[3].path and kind == PX + "::UpdateNativeTokenDecimals":
-            tpl = all(re.match(r"^human\(mload\(%s\)\[.*\]\.contract_addr\)$" % re.escape(N.PAIRS), t) for t in tgt) and empty_funds
+            from . import c17 as _c17
+            raw_items = _c17.raw_scan_items(ctx, root_fn)
+            tpl = all(re.match(r"^human\(mload\(%s\)\[.*\]\.contract_addr\)$" % re.escape(N.PAIRS), t) or
+                      any(t == "human(%s.1.contract_addr)" % it for it in raw_items) for t in tgt) and empty_funds
         if tpl is None:
             r1.fail("C07.R1:unknown-execute:%s:%s" % (root_fn.path, kind), fn.path, sp, "Wasm::Execute with payload %s in %s matches no allowed template" % (kind[:120], root_fn.path))
         elif not tpl:
@@ -118,6 +121,11 @@ def _run(ctx):
             g = generic_path(p)
             if roles.is_workspace_fn(P, p) or PRODUCER_OK.search(g):
                 continue
+            gcl_ = P.fn(p)
+            if gcl_ is not None and gcl_.kind == "closure" and common.local_closure_helper(P, gcl_):
+                continue        # a local closure called like a function: its messages are reported at the call (message_sites)
+            if P.val_call(fn, fn.body, b)[0] == "agg":
+                continue        # a cosmwasm-std constructor modelled as the aggregate it builds (mir.model_std_ctor): listed as a message site above
             # closures of this workspace called through Fn traits
             r1.fail("C07.R1:unknown-producer:%s:%s" % (fn.path, g), fn.path, common.span_of_block_term(fn, b),
                     "call of %s yields a message-typed value (%s); not in the table of known message producers: unrecognised-idiom" % (g, ty[:80]))
@@ -135,11 +143,17 @@ def _run(ctx):
                 r2.site("%s %s in %s" % (sp, var, root_fn.path))
         if short == "Cw20ExecuteMsg" and var == "TransferFrom":
             f = dict(v[3])
+            R3_ = ctx.R
             if root_fn.path != prov.path:
-                r3.fail("C07.R3:outside:%s" % root_fn.path, fn.path, sp, "TransferFrom is built outside the provide handler")
-                continue
+                # staged: a private helper of the provide handler with that single call site, judged with its parameters
+                # standing for the call's arguments
+                cs_ = common.single_call_site(P, root_fn) if not (root_fn.j.get("vis") or "Public").startswith("Public") else None
+                if cs_ is None or cs_[0].path != prov.path:
+                    r3.fail("C07.R3:outside:%s" % root_fn.path, fn.path, sp, "TransferFrom is built outside the provide handler")
+                    continue
+                R3_ = ctx.R.with_params(root_fn.path, P.val_call(prov, prov.body, cs_[1])[4])
             info, env = param(prov, INFO_TY), param(prov, ENV_TY)
-            o, rcp = set(ctx.roots(f["owner"])), set(ctx.roots(f["recipient"]))
+            o, rcp = set(R3_.roots(f["owner"])), set(R3_.roots(f["recipient"]))
             if o != {P_(prov, info, ".sender")}:
                 r3.fail("C07.R3:owner", fn.path, sp, "TransferFrom.owner ⊢ %s, expected the transaction sender (info.sender): a third party's allowance could be spent" % sorted(o))
             elif rcp != {P_(prov, env, ".contract.address")}:
